@@ -23,6 +23,9 @@ pub fn check(tier: Tier) -> Check {
         Part::new("C04/states", json!({"depth": tier.pick(0, 1), "pairs": true}), 0, tier.pick(40, 600)),
         // well-formed big packets followed by fragments (buffer management must not panic or lose input)
         Part::new("C04/after-big", json!({"sizes": [9000, 70_000, 1_100_000]}), 0, 120),
+        // session resumes under a Receive Maximum smaller than the number of open exchanges (arithmetic)
+        Part::new("C04/resume", json!({"depth": 4, "expiry": 1000, "secs_ago": 10, "r2": 1}), 0, 60),
+        Part::new("C04/resume", json!({"depth": 4, "expiry": 1000, "secs_ago": 10, "r": 2, "r2": 2}), 0, 60),
         Part::new("C04/trickle", json!({"size": tier.pick(65_536, 2_100_000)}), 0, 120),
     ];
     Check {
@@ -503,6 +506,9 @@ pub fn scenario(name: &str, params: &Value) -> Scenario {
     let name = name.to_string();
     if name == "C04/states" {
         return states(name, params);
+    }
+    if name == "C04/resume" {
+        return super::c17::scenario_for("C04", &name, &params);
     }
     if name == "C04/after-big" {
         return super::c03::after_big("C04", name, params);
